@@ -1,5 +1,6 @@
-(* Property C17 - statements only.  Every theorem is closed by [exact] of a lemma from
-   Proofs/Accept_proofs.v; the statements are pinned again in /verif/pins/C17.v.
+(* Property C17 - statements only.  The theorems are closed by [exact] (for five of them a script
+   of at most three lines) of lemmas from Proofs/Accept_proofs.v, the witness (`_refuted`) theorems
+   and the Examples by computation; the statements are pinned again in pins/C17.v.
 
    Vocabulary (Model/Accept.v):  [ser_buf k ws t v : writer] is `<K as SerializeValue>::serialize`
    on the buffer (a writer maps the buffer to the buffer after the call and the error, if any);
@@ -10,7 +11,8 @@
    the vector element rule as well - that one is the defect F2b;  [val_fits k t v] says that the
    value, as it is written, is a value of the column type ([dyn_fits] for a CqlValue);
    [add_value], [sv_iter], [run_ops], [from_row] model SerializedValues;  [row_check] /
-   [typed_rows] the row type check in front of every typed row iterator. *)
+   [typed_rows] the row type check in `TypedRowIterator::new` (the other call site, pager.rs
+   `TypedRowStream`, is outside this slice). *)
 From SV Require Import Base.Prelude Base.Bytes Model.Vint Model.Cql Model.Accept Proofs.Cql_proofs Proofs.Accept_proofs.
 From SV Require Model.Request.
 Open Scope N_scope.
@@ -455,6 +457,52 @@ Example C17_ex_named_row :
   from_typed_row cols (Request.RSeq [vb; va]) = Ok {| sv_bytes := [255; 255; 255; 255; 0; 0; 0; 1; 120]; sv_count := 2 |} /\
   cell_of_out [0; 0; 0; 1; 120] = Request.CVal [120] /\ cell_wire (Request.CVal [120]) = [0; 0; 0; 1; 120].
 Proof. vm_compute. repeat split; reflexivity. Qed.
+
+(* The vocabulary of the reject theorems, frozen: [refusal_named] is exactly these five cases
+   ([is_typeck] = the nine BuiltinTypeCheckErrorKind leaves), and the two premises it is used
+   with - a vector position of the wrong length ([val_len_mis] / [dyn_len_mis]) and a collection
+   of more than i32::MAX elements ([kv_big] / [cval_big]) - mean what their names say. *)
+Example C17_ex_refusal_vocabulary :
+  (forall lenmis big e, refusal_named lenmis big e <->
+     (is_typeck e = true \/ e = KE_ValueOverflow \/ (e = KE SE_VectorLen /\ lenmis = true) \/
+      (e = KE SE_TooManyElements /\ big = true) \/ e = KE SE_SizeOverflow)) /\
+  map is_typeck [KE SE_MismatchedType; KE SE_NotEmptyable; KE SE_NotSetOrList; KE SE_NotMap; KE SE_NotTuple;
+                 KE SE_TupleWrongCount; KE SE_NotUdt; KE SE_UdtNameMismatch; KE SE_NoSuchFieldInUdt;
+                 KE SE_SizeOverflow; KE SE_TooManyElements; KE SE_VectorLen; KE_ValueOverflow; KE_IllTyped]
+    = [true; true; true; true; true; true; true; true; true; false; false; false; false; false] /\
+  refusal_named false false (KE SE_MismatchedType) /\ refusal_named true false (KE SE_VectorLen) /\
+  refusal_named false true (KE SE_TooManyElements) /\
+  ~ refusal_named false true (KE SE_VectorLen) /\ ~ refusal_named true false (KE SE_TooManyElements) /\
+  ~ refusal_named true true KE_IllTyped /\
+  (* a vector position of the wrong length: at the top, nested, and not *)
+  val_len_mis (KVec (KBase BI32)) (TVector tint 2) (VSeq [VLeaf (CInt 1)]) = true /\
+  val_len_mis (KVec (KBase BI32)) (TVector tint 2) (VSeq [VLeaf (CInt 1); VLeaf (CInt 2)]) = false /\
+  val_len_mis (KVec (KVec (KBase BI32))) (TList (TVector tint 2))
+              (VSeq [VSeq [VLeaf (CInt 1); VLeaf (CInt 2)]; VSeq [VLeaf (CInt 1)]]) = true /\
+  val_len_mis (KVec (KBase BI32)) (TList tint) (VSeq [VLeaf (CInt 1)]) = false /\
+  val_len_mis (KBase BI32) ttext (VLeaf (CInt 1)) = false /\
+  val_len_mis KCqlValue (TVector tint 2) (VLeaf (CVector [CInt 1])) = true /\
+  dyn_len_mis (TVector tint 2) (CVector [CInt 1]) = true /\
+  dyn_len_mis (TVector tint 2) (CVector [CInt 1; CInt 2]) = false /\
+  dyn_len_mis (TList (TVector tint 2)) (CList [CVector [CInt 1; CInt 2]; CVector []]) = true /\
+  dyn_len_mis (TList tint) (CList [CInt 1]) = false /\ dyn_len_mis (TVector tint 2) (CInt 1) = false /\
+  (* more than i32::MAX elements, here or below *)
+  i32_max = 2147483647 /\
+  (forall l, kv_big (VSeq l) = (i32_max <? N.of_nat (List.length l)) || existsb kv_big l) /\
+  (forall l, cval_big (CList l) = (i32_max <? N.of_nat (List.length l)) || existsb cval_big l) /\
+  (forall x, kv_big (VLeaf x) = cval_big x) /\
+  kv_big (VSeq [VLeaf (CInt 1); VNull]) = false /\ kv_big (VLeaf (CInt 1)) = false /\
+  kv_big (VMap [(VLeaf (CInt 1), VSeq [VLeaf (CInt 2)])]) = false /\
+  cval_big (CVector [CInt 1; CList [CInt 2]]) = false /\ cval_big (CInt 1) = false.
+Proof.
+  split; [intros; reflexivity|].
+  split; [reflexivity|].
+  unfold refusal_named.
+  repeat match goal with |- _ /\ _ => split end;
+    try (vm_compute; reflexivity); try reflexivity; try (intros; reflexivity);
+    try (vm_compute; tauto);
+    try (intros [H|[H|[[H1 H2]|[[H1 H2]|H]]]]; (discriminate || (vm_compute in H; discriminate))).
+Qed.
 
 Print Assumptions C17_code_matrix.
 Print Assumptions C17_matrix_ser_doc_refuted.
